@@ -23,6 +23,8 @@ def run(run):
     GL.extract_facets(run)
     GL.gbs_facets(run, which=("C01",))
     UF.c01_frame(run)
+    UF.callee_frames(run)
+    UF.regime_glue(run)
     UF.c09_glue(run)
     UF.rhs_safety(run)
     post_init_facets(run)
